@@ -2539,6 +2539,10 @@ class BaseDict(object):
         conv = self.converters[name]
         value = conv.xmlRead(name, attrs, content, self)
         setattr(self, name, value)
+        if name == "VarStore" and "CharStrings" in self.__dict__:
+            # In the XML the CharStrings come before the VarStore they blend
+            # with: hand it to them now, as decompile() does.
+            self.CharStrings.varStore = value
 
 
 class TopDict(BaseDict):
